@@ -38,3 +38,49 @@ package reader
 //@   requires r.Options != nil && r.sniffer != nil
 //@   requires forall k formats.Format :: (k in unserializers) ==> unserializers[k] != nil
 //@   ensures [C04:parse:oneOf] (result1 == nil) != (result0 == nil)
+
+// ---------------------------------------------------------------------------
+// C17: lock discipline of the package-level variables
+// ---------------------------------------------------------------------------
+//@ global regMtx trusted-concurrent
+//@ global unserializers guarded_by regMtx
+//@ global defaultUnserializeOptions immutable-after-init
+//@ global defaultOptions immutable-after-init
+//@ package-props C17
+
+//@ type ReaderOption(r *Reader)
+//@   requires r != nil && r.Options != nil
+//@   assigns r.sniffer, r.Storage, r.Options.*, (r.Options.formatOptions)[*]
+//@   ensures [C18:option:map] r.Options.formatOptions == old(r.Options.formatOptions) || fresh(r.Options.formatOptions)
+
+//@ func WithFormatOptions$1
+//@   props C18
+//@   requires r != nil && r.Options != nil
+//@   assigns r.sniffer, r.Storage, r.Options.*, (r.Options.formatOptions)[*]
+//@   ensures [C18:option:map] r.Options.formatOptions == old(r.Options.formatOptions) || fresh(r.Options.formatOptions)
+//@ func WithUnserializeOptions$1
+//@   props C18
+//@   requires r != nil && r.Options != nil
+//@   assigns r.sniffer, r.Storage, r.Options.*, (r.Options.formatOptions)[*]
+//@   ensures [C18:option:map] r.Options.formatOptions == old(r.Options.formatOptions) || fresh(r.Options.formatOptions)
+//@ func WithSniffer$1
+//@   props C18
+//@   requires r != nil && r.Options != nil
+//@   assigns r.sniffer, r.Storage, r.Options.*, (r.Options.formatOptions)[*]
+//@   ensures [C18:option:map] r.Options.formatOptions == old(r.Options.formatOptions) || fresh(r.Options.formatOptions)
+//@ func WithStoreRetriever$1
+//@   props C18
+//@   requires r != nil && r.Options != nil
+//@   assigns r.sniffer, r.Storage, r.Options.*, (r.Options.formatOptions)[*]
+//@   ensures [C18:option:map] r.Options.formatOptions == old(r.Options.formatOptions) || fresh(r.Options.formatOptions)
+//@ func WithRetrieveOptions$1
+//@   props C18
+//@   requires r != nil && r.Options != nil
+//@   assigns r.sniffer, r.Storage, r.Options.*, (r.Options.formatOptions)[*]
+//@   ensures [C18:option:map] r.Options.formatOptions == old(r.Options.formatOptions) || fresh(r.Options.formatOptions)
+
+//@ func New
+//@   props C18
+//@   requires defaultOptions != nil
+//@   assigns \nothing
+//@   ensures [C18:new:freshInstance] result != nil && fresh(result) && result.Options != nil && fresh(result.Options)
